@@ -201,6 +201,88 @@ Theorem C08_marker_before_flush_refuted :
 Proof. exact marker_before_flush_refuted. Qed.
 Print Assumptions C08_marker_before_flush_refuted.
 
+(* deaths by UNWINDING (KeyboardInterrupt from SIGINT, SystemExit from a SIGTERM handler, an exception nobody
+   catches): handlers, __exit__ methods and finally blocks run and may issue file operations, so what is left is not
+   a prefix of the operation list by construction.  Whenever the left-over state l is one that SOME crash point of
+   the uninterrupted run leaves (prefix_state_b, decided by the harness on the real directory), it is classified
+   exactly like that crash point, for every workload and either form of the code ... *)
+Theorem C08_unwound_as_crash : forall (fixed : bool) (w : workload) (l : list (path * content)) (req : nat),
+  prefix_state_b (w_s0l w) (w_ops fixed w) l = true ->
+  exists k, w_class_at fixed w (fs_of l) req = w_class fixed w k req.
+Proof. exact unwound_as_crash. Qed.
+Print Assumptions C08_unwound_as_crash.
+
+Theorem C08_prefix_state_sound : forall (l0 : list (path * content)) (ops : list fop) (l : list (path * content)),
+  prefix_state_b l0 ops l = true -> exists k, forall q, fs_of l q = apply (firstn k ops) (fs_of l0) q.
+Proof. exact prefix_state_spec. Qed.
+Print Assumptions C08_prefix_state_sound.
+
+(* ... hence an interrupted creation / overwrite recovers as an error, the old or the complete new catalog *)
+Theorem C08_unwound_create_safe : forall (ps : list piece) (l : list (path * content)),
+  prefix_state_b [] (ops_create ps) l = true ->
+  In (recover_cat true (fs_of l)) [Err; recover_cat true (apply (ops_create ps) empty_fs)].
+Proof. exact unwound_create_safe. Qed.
+Print Assumptions C08_unwound_create_safe.
+
+Theorem C08_unwound_overwrite_safe : forall (l0 : list (path * content)) (order : list path) (ps : list piece) (l : list (path * content)),
+  wf_cat (fs_of l0) -> valid_order_b l0 order = true ->
+  prefix_state_b l0 (ops_overwrite order ps) l = true ->
+  In (recover_cat true (fs_of l)) [Err; recover_cat true (fs_of l0); recover_cat true (apply (ops_overwrite order ps) (fs_of l0))].
+Proof. exact unwound_overwrite_safe. Qed.
+Print Assumptions C08_unwound_overwrite_safe.
+
+(* the abort path of write_patches (writers closed, the code of the regular end NOT run), interrupted after ANY
+   number j of pieces: its operations are a prefix of the uninterrupted run's, and the next use is an error *)
+Theorem C08_unwound_create_prefix : forall (j : nat) (ps : list piece),
+  exists k, ops_create_unwound false j ps = firstn k (ops_create ps).
+Proof. exact unwound_create_prefix. Qed.
+Print Assumptions C08_unwound_create_prefix.
+
+Theorem C08_unwound_create_err : forall (strict : bool) (j : nat) (ps : list piece) (s0 : fs),
+  s0 PIds = None -> recover_cat strict (apply (ops_create_unwound false j ps) s0) = Err.
+Proof. exact unwound_create_err. Qed.
+Print Assumptions C08_unwound_create_err.
+
+Theorem C08_unwound_overwrite_err : forall (strict : bool) (l : list (path * content)) (order : list path) (j : nat) (ps : list piece),
+  wf_cat (fs_of l) -> valid_order_b l order = true ->
+  recover_cat strict (apply (ops_overwrite_unwound false order j ps) (fs_of l)) = Err.
+Proof. exact unwound_overwrite_err. Qed.
+Print Assumptions C08_unwound_overwrite_err.
+
+(* with the code of the regular end on the abort path (finalize when the queue ends, whatever ended it): interrupted
+   after 2 of 3 pieces the directory opens without an error and holds a part of the records; no crash point of the
+   uninterrupted run leaves that state *)
+Theorem C08_finalize_on_abort_refuted :
+  (forall q, apply (ops_create_unwound true 2 ps_demo) empty_fs q = fs_of s_unwound_fin q) /\
+  recover_cat true (fs_of s_unwound_fin) = Ok [(0, [0; 1]); (1, [2])] /\
+  recover_cat true (apply (ops_create ps_demo) empty_fs) = Ok [(0, [0; 1; 3]); (1, [2])] /\
+  prefix_state_b [] (ops_create ps_demo) s_unwound_fin = false /\
+  w_class_at true (WCreate ps_demo) (fs_of s_unwound_fin) 0 = 1.
+Proof. exact finalize_on_abort_refuted. Qed.
+Print Assumptions C08_finalize_on_abort_refuted.
+
+(* non-vacuity of the unwound form: the overwrite of C08_concrete interrupted when 2 of its 3 pieces have arrived
+   leaves the new root, both new patch directories with the data so far and no patch_ids.bin: that is the state of
+   crash point 19, an error (flags all fine, code 0); the same directory WITH a patch_ids.bin is no crash state and
+   opens with a part of the records (flags 1 and 2 fail: code 6) *)
+Example C08_concrete_unwound :
+  let l0 := [(PRoot, Dir); (PIds, IdsF [0; 1]); (PDir 0, Dir); (PData 0, DataF true [0; 1]); (PMeta 0, MetaF true);
+             (PBin 0, BinF (BWhole 1)); (PTrees 0, TreesF (Some 1));
+             (PDir 1, Dir); (PData 1, DataF true [2]); (PMeta 1, MetaF true)] in
+  let order := [PBin 0; PMeta 0; PTrees 0; PData 0; PDir 0; PIds; PMeta 1; PData 1; PDir 1; PRoot] in
+  let ps := [(0, [10; 11]); (1, [12]); (0, [13])] in
+  let w := WOverwrite l0 order ps in
+  let left := [(PRoot, Dir); (PDir 0, Dir); (PData 0, DataF true [10; 11]); (PDir 1, Dir); (PData 1, DataF true [12])] in
+  (forall q, apply (ops_overwrite_unwound false order 2 ps) (fs_of l0) q = fs_of left q) /\
+  prefix_state_b l0 (w_ops true w) left = true /\
+  w_class_at true w (fs_of left) 0 = w_class true w 19 0 /\
+  c08_unwound true w left 0 0 true = 0 /\
+  c08_unwound true w ((PIds, IdsF [0; 1]) :: left) 0 1 true = 6.
+Proof.
+  split; [|vm_compute; repeat split].
+  intro q. destruct q as [| |[|[|i]]|[|[|i]]|[|[|i]]|[|[|i]]|[|[|i]]| | | | |n]; reflexivity.
+Qed.
+
 (* non-vacuity: overwriting a two-patch catalog (with a tree cache) by other data; rmtree removes binning,
    meta.yml, trees.pkl of patch 0 first (still the old catalog), then its data (error), ...; the new catalog
    is an error until patch_ids.bin is written and while a meta.yml is empty.  With the pinned id-list check
